@@ -348,6 +348,35 @@ func lruDump(c *updog.LRUCache) (out string) {
 	if ef.IsValid() {
 		fmt.Fprintf(&b, ",n=%d", ef.Len())
 	}
+	// every other field the cache may have (added later: memo of the last lookup, flags, ...), generically; list
+	// elements and map values are pointers that differ between replays, so only scalar-valued content survives
+	b.WriteString("|" + lruExtra(c))
+	return b.String()
+}
+
+// lruExtra dumps all fields except the three known containers, with pointers replaced by what they point to.
+func lruExtra(c *updog.LRUCache) string {
+	v := reflect.ValueOf(c).Elem()
+	var b strings.Builder
+	for i := 0; i < v.NumField(); i++ {
+		n := v.Type().Field(i).Name
+		switch n {
+		case "entries", "lruList", "metrics", "mtx":
+			continue
+		}
+		f := v.Field(i)
+		b.WriteString(n + "=")
+		if f.Kind() == reflect.Ptr && !f.IsNil() && f.Type().String() == "*list.Element" {
+			// a remembered list element: identify it by the key of its item
+			e := (*list.Element)(f.UnsafePointer())
+			if e != nil && e.Value != nil {
+				b.WriteString("elem(" + rt.DeepDump(e.Value, 2) + ")")
+			}
+		} else {
+			b.WriteString(rt.DeepDump(reflect.NewAt(f.Type(), unsafe.Pointer(f.UnsafeAddr())).Elem().Interface(), 2))
+		}
+		b.WriteString(";")
+	}
 	return b.String()
 }
 
